@@ -29,20 +29,35 @@ Definition budget_spec_with (r : Z) (i : binput) : Z :=
   | None => free
   | Some mp => Z.max free (Z.quot (b_cap i * mp) 100)
   end.
-Definition budget_spec (i : binput) : Z := budget_spec_with (node_reserved i) i.
+(* "the node reservation", read off the node object: what the kubelet keeps back (capacity minus
+   allocatable) or what the reservation annotation declares, whichever is larger.  The annotation
+   declares the cpus it lists (reservedCPUs, counted once each) or else its resources.cpu amount,
+   WHATEVER its applyPolicy says (the policy only tells the scheduler how to account the
+   allocatable); an annotation that cannot be read declares nothing. *)
+Definition kubelet_reservation (i : binput) : Z :=
+  Z.max (b_cap i - match b_alloc i with Some a => a | None => 0 end) 0.
+Definition anno_declared (a : nodeanno) : Z :=
+  if negb (an_state a =? 3) then 0
+  else match an_cpus a with
+       | [] => match an_rescpu a with Some u => Z.max (milli_of_micro u) 0 | None => 0 end
+       | _ => if an_cpus_ok a then 1000 * dedup_len (an_cpus a) else 0
+       end.
+Definition reservation_spec (i : binput) : Z := Z.max (kubelet_reservation i) (anno_declared (b_anno i)).
+
+Definition budget_spec (i : binput) : Z := budget_spec_with (reservation_spec i) i.
 
 (* the float64 round trip milli -> cores -> milli of the reservation is exact / loses at most
    one milli-CPU *)
-Definition rt_exact (i : binput) : bool := rt_milli (node_reserved i) =? node_reserved i.
+Definition rt_exact (i : binput) : bool := rt_milli (reservation_spec i) =? reservation_spec i.
 Definition rt_ok (i : binput) : bool :=
-  (node_reserved i - 1 <=? rt_milli (node_reserved i)) && (rt_milli (node_reserved i) <=? node_reserved i).
+  (reservation_spec i - 1 <=? rt_milli (reservation_spec i)) && (rt_milli (reservation_spec i) <=? reservation_spec i).
 
 (* The budget equals the formula; where the float64 round trip of the reservation is lossy the
    reservation may count one milli-CPU less. *)
 Definition budget_holds (i : binput) (b : Z) : Prop :=
-  b = budget_spec i \/ (rt_exact i = false /\ b = budget_spec_with (node_reserved i - 1) i).
+  b = budget_spec i \/ (rt_exact i = false /\ b = budget_spec_with (reservation_spec i - 1) i).
 Definition budget_holdsb (i : binput) (b : Z) : bool :=
-  (b =? budget_spec i) || (negb (rt_exact i) && (b =? budget_spec_with (node_reserved i - 1) i)).
+  (b =? budget_spec i) || (negb (rt_exact i) && (b =? budget_spec_with (reservation_spec i - 1) i)).
 
 (* growth of non-BE consumption (metamorphic part of the property) *)
 Definition pod_le (p p' : pod) : Prop :=
@@ -50,17 +65,21 @@ Definition pod_le (p p' : pod) : Prop :=
   p_hasmetric p = p_hasmetric p' /\ p_use p <= p_use p'.
 Definition happ_le (h h' : happ) : Prop :=
   h_qos h = h_qos h' /\ h_base h = h_base h' /\ h_hasmetric h = h_hasmetric h' /\ h_use h <= h_use h'.
-(* same node and configuration, every pod / host application uses at least as much as before
-   and the rest of the node (system) does not use less *)
+(* same capacity and configuration, the node reservation is not smaller, every pod / host
+   application uses at least as much as before and the rest of the node (system) does not use less *)
 Definition grows (i i' : binput) : Prop :=
-  b_cap i = b_cap i' /\ b_alloc i = b_alloc i' /\ b_anno i = b_anno i' /\ b_thr i = b_thr i' /\
+  b_cap i = b_cap i' /\ reservation_spec i <= reservation_spec i' /\ b_thr i = b_thr i' /\
   b_min i = b_min i' /\ Forall2 pod_le (b_pods i) (b_pods i') /\ Forall2 happ_le (b_hosts i) (b_hosts i') /\
   sys_raw i <= sys_raw i'.
 
 (* perturbations the harness applies: kind 1 pod [idx] uses d more and so does the node,
    2 the same for a host application, 3 only the node (system) uses d more,
    4 pod [idx] uses d more while the node total stays (the system part shrinks; checked for
-     non-BE pods only, up to the one milli-CPU the separate truncations can cost) *)
+     non-BE pods only, up to the one milli-CPU the separate truncations can cost),
+   5 the reservation annotation's applyPolicy becomes [idx] (nothing else changes: same budget),
+   6 the kubelet keeps d more back (allocatable shrinks by d: the budget does not grow) *)
+Definition with_policy (p : Z) (a : nodeanno) : nodeanno :=
+  mkAnno (an_state a) p (an_rescpu a) (an_cpus_ok a) (an_cpus a).
 Fixpoint bump_pod (idx : nat) (d : Z) (ps : list pod) : list pod :=
   match ps, idx with
   | [], _ => []
@@ -85,6 +104,11 @@ Definition perturb (kind idx d : Z) (i : binput) : binput :=
     with_node_pods_hosts i (b_node i + (if counted then d else 0)) (b_pods i) (bump_host k d (b_hosts i))
   else if kind =? 3 then with_node_pods_hosts i (b_node i + d) (b_pods i) (b_hosts i)
   else if kind =? 4 then with_node_pods_hosts i (b_node i) (bump_pod k d (b_pods i)) (b_hosts i)
+  else if kind =? 5 then
+    mkB (b_cap i) (b_alloc i) (with_policy idx (b_anno i)) (b_thr i) (b_min i) (b_node i) (b_pods i) (b_hosts i)
+  else if kind =? 6 then
+    mkB (b_cap i) (option_map (fun a => a - d) (b_alloc i)) (b_anno i) (b_thr i) (b_min i) (b_node i)
+        (b_pods i) (b_hosts i)
   else i.
 
 (* observable: [b1; b2], the budgets of the input and of the perturbed input *)
@@ -97,6 +121,8 @@ Definition budget_code (kind idx d : Z) (i : binput) (obs : list Z) : Z :=
       else if (kind =? 4) && (0 <=? d)
               && match nth_error (b_pods i) (Z.to_nat idx) with Some p => pod_nonbe p | None => true end
               && negb (b2 <=? b1 + 1) then 104
+      else if (kind =? 5) && negb (b2 =? b1) then 105
+      else if (kind =? 6) && (0 <=? d) && negb (b2 <=? b1) then 106
       else 0
   | _ => 109
   end.
